@@ -8,7 +8,7 @@ git -C /repo worktree remove --force "$WT" 2>/dev/null
 git -C /repo worktree add -q "$WT" HEAD || exit 3
 cp /repo/kopf/_cogs/helpers/versions.py "$WT/kopf/_cogs/helpers/versions.py" 2>/dev/null
 DEMO=$(python3 -c "import json,sys; print(json.load(open('$SRC/meta.json'))['demo_cmd'])")
-DEMO=$(echo "$DEMO" | sed "s#/tmp/seed/$ID-out#$SRC#g; s#/tmp/seed/$ID#$WT#g")
+DEMO=$(echo "$DEMO" | sed "s#/tmp/seed/$ID-out#@@OUT@@#g; s#/tmp/seed/$ID#$WT#g; s#@@OUT@@#$SRC#g")
 echo "demo: $DEMO"
 (cd "$WT" && sh -c "$DEMO" > /tmp/seedchk-$ID.without.log 2>&1); rc0=$?
 (cd "$WT" && git apply "$SRC/patch.diff") || { echo "patch does not apply"; exit 3; }
